@@ -92,6 +92,26 @@ def outcome(fn):
         return ("e", type(e).__name__)
 
 
+class _Alarm(Exception):
+    pass
+
+
+def _with_alarm(seconds, fn):
+    """run fn under a wall-clock limit (worker processes are single-threaded); a result that depends on
+    the limit is never judged, so real time does not leak into verdicts or digests"""
+    import signal
+
+    def on_alarm(signum, frame):
+        raise _Alarm()
+    old = signal.signal(signal.SIGALRM, on_alarm)
+    signal.setitimer(signal.ITIMER_REAL, seconds)
+    try:
+        return fn()
+    finally:
+        signal.setitimer(signal.ITIMER_REAL, 0)
+        signal.signal(signal.SIGALRM, old)
+
+
 def _yes(x):
     """truth of a comparison result: True or numpy's True_ (segments made by the library can hold numpy
     scalars, whose == returns np.bool_); NotImplemented and anything else count as no"""
@@ -1524,6 +1544,34 @@ class World:
                 self.compare(idx, "point", oc, tw, False)
             if oc[0] != "i":
                 self._mark_path_tols(pr, *DEFAULT_TOL)
+        elif q == "intersect":
+            # not one of the queries the statement lists, but it reads the same object: whatever state
+            # it keeps must follow every mutation too
+            if not self._have(p=[op["other"]]):
+                return "skipped"
+            other = self.paths[op["other"]]
+            if (has_arc or any(self.segs[x].kind == "A" for x in other.model)) or \
+                    len(pr.model) * len(other.model) > 16 or not pr.model or not other.model:
+                return "skipped"
+
+            def ask(a, b):
+                out = []
+                for (T1, s1, t1), (T2, s2, t2) in a.intersect(b):
+                    out.append((float(T1), float(t1), float(T2), float(t2), a.index(s1), b.index(s2)))
+                return out
+            if other is pr or any(self._obj(x) == self._obj(y) for x in pr.model for y in other.model):
+                return "skipped"      # coincident curves: the intersection routine is not meant for them
+            oc = self.impl(lambda: _with_alarm(3.0, lambda: ask(p, other.obj)))
+            tw = outcome(lambda: _with_alarm(3.0, lambda: ask(T(), self.twin_path(other))))
+            if (oc[0] == "e" and oc[1] == "_Alarm") or (tw[0] == "e" and tw[1] == "_Alarm"):
+                self.probe("intersect_query_abandoned_after_time_limit")
+            elif tolerant or self.path_taint(other):
+                self.probe("inconclusive_boundary_query_on_rounding_tainted_path")
+            else:
+                self.compare(idx, "intersect", oc, tw, False)
+            if oc[0] != "i":
+                self._mark_path_tols(pr, *DEFAULT_TOL)
+                self._mark_path_tols(other, *DEFAULT_TOL)
         elif q == "iscontinuous":
             oc = self.impl(lambda: p.iscontinuous())
             tw = outcome(lambda: T().iscontinuous())
@@ -1564,6 +1612,8 @@ class World:
         if warmed:
             self.hash_sweep(idx)      # a cache was (re)filled: equality/hash of everything live must not notice
         entry["out"] = self._render(oc) if oc[0] != "i" else {"interrupted": True}
+        if q == "intersect":
+            entry["out"] = {"not_logged": "runs under a wall-clock limit; its outcome must not enter the digest"}
         return "ok"
 
     @staticmethod
@@ -1683,7 +1733,7 @@ PATH_MUT = ["setitem", "setslice", "insert", "append", "extend", "extend_self", 
 PATH_Q = ["length", "length_T", "length_tol", "length_fail", "point", "T2t", "t2T", "ilength",
           "cropped", "start", "end", "bbox", "d", "iscontinuous", "isclosed", "len", "repr", "eq",
           "eq_twin", "derivative", "unit_tangent", "curvature", "normal", "closed", "isclosedac",
-          "membership", "radialrange"]
+          "membership", "radialrange", "intersect"]
 SEG_Q = ["length", "length_tol", "length_fail", "length_t", "point", "bbox", "ilength", "repr", "eq",
          "derivative", "unit_tangent", "poly", "points", "length_rev"]
 CREATE = ["new_seg", "dup_seg", "new_path", "seg_reversed", "seg_copy", "path_reversed", "path_slice",
@@ -1855,6 +1905,8 @@ class Gen:
                 return cz(o["arc"]["start"]) if o["kind"] == "A" else cz(o["pts"][0])
             a0, b0 = endp(segs[-1]), startp(segs[0])
             if a0 != b0:
+                if r.random() < 0.25:
+                    b0 = complex(math.nextafter(b0.real, math.inf), b0.imag)    # misses the start by one ulp
                 o = {"op": "new_seg", "id": self.next_sid, "kind": "L", "pts": [zc(a0), zc(b0)]}
                 self.next_sid += 1
                 segs.append(o)
@@ -2027,7 +2079,7 @@ class Gen:
                 op["T0"], op["T1"] = self.Tval(a, w, pr), self.Tval(a, w, pr)
         elif q == "d":
             op["opts"] = [a.random() < 0.5, a.random() < 0.5, a.random() < 0.5]
-        elif q == "eq":
+        elif q in ("eq", "intersect"):
             op["other"] = a.choice(sorted(w.paths))
         return op
 
@@ -2122,6 +2174,8 @@ class Gen:
                 op["deg"] = a.choice([90.0, 180.0, 30.0, -45.0])
             if kind == "scaled":
                 op["sx"], op["sy"] = a.choice([2.0, 0.5, -1.0]), a.choice([2.0, 0.5, 3.0])
+                if a.random() < 0.5:
+                    op["sx"] = op["sy"] = a.choice([2.0, 0.5, -1.0, -2.0])     # uniform, also mirrored
             return op
         if k == "path_slice":
             return {"op": k, "p": src, "id": pid, "sl": self.slc(a, len(w.paths[src].model))}
